@@ -319,6 +319,12 @@ Qed.
 
 (* ---- the whole header ---- *)
 
+Lemma run_close n at_ rest : run (PGap n at_) (str ">" ++ rest) = Some (n, rev at_, false, rest).
+Proof. reflexivity. Qed.
+
+Lemma run_selfclose n at_ rest : run (PGap n at_) (str "/>" ++ rest) = Some (n, rev at_, true, rest).
+Proof. reflexivity. Qed.
+
 Definition hdr_attrs (lang to from id : bytes) : list rattr :=
   ra_opt (str "id") id ++ ra_opt (str "to") to ++ ra_opt (str "from") from ++ ra_opt (str "xml:lang") lang.
 
@@ -336,13 +342,13 @@ Proof.
   destruct (plain_version ver Ha Hb) as [Pv Tv].
   unfold send_header. cbv beta iota.
   set (four := opt_attr (str "id") id ++ opt_attr (str "to") to ++ opt_attr (str "from") from ++ opt_attr (str "xml:lang") lang).
-  replace (((xml_header ++ str "<stream:stream xmlns='" ++ xmlns ++
-            str "' xmlns:stream='http://etherx.jabber.org/streams' version='" ++ version_string ver ++ str "'") ++
-           four ++ str ">") ++ rest)
-    with ((xml_header ++ str "<stream:stream xmlns='") ++ ((xmlns ++ [quote]) ++
+  match goal with |- run _ ?x = _ =>
+    assert (E : x = (xml_header ++ str "<stream:stream xmlns='") ++ ((xmlns ++ [quote]) ++
           (str " xmlns:stream='http://etherx.jabber.org/streams' version='" ++ ((version_string ver ++ [quote]) ++
-          (four ++ (str ">" ++ rest)))))).
-  2:{ rewrite <- !app_assoc. reflexivity. }
+          (four ++ (str ">" ++ rest))))))
+      by (unfold four; rewrite <- !app_assoc; reflexivity);
+    rewrite E; clear E
+  end.
   rewrite (run_feed (xml_header ++ str "<stream:stream xmlns='") _ (PStart false)
                     (PVal (str "stream:stream") [] (str "xmlns") quote [] None)) by (vm_compute; reflexivity).
   rewrite (run_feed (xmlns ++ [quote]) _ _ _ (feed_raw _ _ _ xmlns Px Tx)).
@@ -352,7 +358,7 @@ Proof.
                           (str "version") quote [] None)) by reflexivity.
   rewrite (run_feed (version_string ver ++ [quote]) _ _ _ (feed_raw _ _ _ _ Pv Tv)).
   rewrite (run_feed four _ _ _ (feed_four _ _ lang to from id Hl Ht Hf Hi)).
-  cbn [run step app str list_byte_of_string]. unfold hdr_attrs.
+  rewrite run_close. unfold hdr_attrs.
   rewrite rev_app_distr, rev_involutive. cbn [rev app]. reflexivity.
 Qed.
 
@@ -369,16 +375,934 @@ Proof.
   destruct (plain_version ver Ha Hb) as [Pv Tv].
   unfold send_header. cbv beta iota.
   set (four := opt_attr (str "id") id ++ opt_attr (str "to") to ++ opt_attr (str "from") from ++ opt_attr (str "xml:lang") lang).
-  replace (((str "<open xmlns=""urn:ietf:params:xml:ns:xmpp-framing"" version='" ++ version_string ver ++ str "'") ++
-           four ++ str "/>") ++ rest)
-    with (str "<open xmlns=""urn:ietf:params:xml:ns:xmpp-framing"" version='" ++ ((version_string ver ++ [quote]) ++
-          (four ++ (str "/>" ++ rest)))).
-  2:{ rewrite <- !app_assoc. reflexivity. }
+  match goal with |- run _ ?x = _ =>
+    assert (E : x = str "<open xmlns=""urn:ietf:params:xml:ns:xmpp-framing"" version='" ++ ((version_string ver ++ [quote]) ++
+          (four ++ (str "/>" ++ rest))))
+      by (unfold four; rewrite <- !app_assoc; reflexivity);
+    rewrite E; clear E
+  end.
   rewrite (run_feed (str "<open xmlns=""urn:ietf:params:xml:ns:xmpp-framing"" version='") _ (PStart false)
                     (PVal (str "open") [mkra (str "xmlns") (str "urn:ietf:params:xml:ns:xmpp-framing")]
                           (str "version") quote [] None)) by (vm_compute; reflexivity).
   rewrite (run_feed (version_string ver ++ [quote]) _ _ _ (feed_raw _ _ _ _ Pv Tv)).
   rewrite (run_feed four _ _ _ (feed_four _ _ lang to from id Hl Ht Hf Hi)).
-  cbn [run step app str list_byte_of_string]. unfold hdr_attrs.
+  rewrite run_selfclose. unfold hdr_attrs.
   rewrite rev_app_distr, rev_involutive. cbn [rev app]. reflexivity.
+Qed.
+
+(* what a peer's parser hands on: the start element of the header *)
+Definition at_opt (space local value : bytes) : list attr :=
+  if is_nil value then [] else [mkattr space local value].
+
+Definition hdr_token_attrs (lang to from id : bytes) : list attr :=
+  at_opt [] (str "id") id ++ at_opt [] (str "to") to ++ at_opt [] (str "from") from ++ at_opt ns_xml (str "lang") lang.
+
+Definition tcp_token (xmlns : bytes) (ver : N * N) (lang to from id : bytes) : tok :=
+  TStart ns_stream (str "stream")
+    ([mkattr [] (str "xmlns") xmlns; mkattr (str "xmlns") (str "stream") ns_stream;
+      mkattr [] (str "version") (version_string ver)] ++ hdr_token_attrs lang to from id).
+
+Definition ws_token (ver : N * N) (lang to from id : bytes) : tok :=
+  TStart ns_ws (str "open")
+    ([mkattr [] (str "xmlns") ns_ws; mkattr [] (str "version") (version_string ver)] ++ hdr_token_attrs lang to from id).
+
+Lemma read_start_tcp xmlns ver lang to from id rest :
+  forallb plainb xmlns = true -> text_ok xmlns = true ->
+  fst ver < 256 -> snd ver < 256 ->
+  text_ok lang = true -> text_ok to = true -> text_ok from = true -> text_ok id = true ->
+  read_start (send_header false xmlns ver lang to from id ++ rest) =
+  Some (tcp_token xmlns ver lang to from id, false, rest).
+Proof.
+  intros Px Tx Ha Hb Hl Ht Hf Hi. unfold read_start.
+  rewrite (run_tcp xmlns ver lang to from id rest Px Tx Ha Hb Hl Ht Hf Hi).
+  unfold hdr_attrs, tcp_token, hdr_token_attrs, ra_opt, at_opt.
+  destruct (is_nil id), (is_nil to), (is_nil from), (is_nil lang); reflexivity.
+Qed.
+
+Lemma read_start_ws xmlns ver lang to from id rest :
+  fst ver < 256 -> snd ver < 256 ->
+  text_ok lang = true -> text_ok to = true -> text_ok from = true -> text_ok id = true ->
+  read_start (send_header true xmlns ver lang to from id ++ rest) =
+  Some (ws_token ver lang to from id, true, rest).
+Proof.
+  intros Ha Hb Hl Ht Hf Hi. unfold read_start.
+  rewrite (run_ws xmlns ver lang to from id rest Ha Hb Hl Ht Hf Hi).
+  unfold hdr_attrs, ws_token, hdr_token_attrs, ra_opt, at_opt.
+  destruct (is_nil id), (is_nil to), (is_nil from), (is_nil lang); reflexivity.
+Qed.
+
+(* ------------------------------------------------------------------ *)
+(* 4. Versions                                                         *)
+
+Lemma parse_version_string v :
+  fst v < 256 -> snd v < 256 -> parse_version (version_string v) = Some v.
+Proof.
+  destruct v as [a b]. cbn [fst snd]. intros Ha Hb.
+  assert (E : forallb (fun x => forallb (fun y =>
+                match parse_version (version_string (N.of_nat x, N.of_nat y)) with
+                | Some (p, q) => (p =? N.of_nat x) && (q =? N.of_nat y)
+                | None => false
+                end) (seq 0 256)) (seq 0 256) = true) by (vm_compute; reflexivity).
+  rewrite forallb_forall in E.
+  assert (Ia : In (N.to_nat a) (seq 0 256)) by (apply in_seq; lia).
+  assert (Ib : In (N.to_nat b) (seq 0 256)) by (apply in_seq; lia).
+  specialize (E (N.to_nat a) Ia). rewrite forallb_forall in E. specialize (E (N.to_nat b) Ib).
+  rewrite !N2Nat.id in E.
+  destruct (parse_version (version_string (a, b))) as [[p q]|]; [|discriminate E].
+  apply andb_true_iff in E. destruct E as [E1 E2].
+  apply N.eqb_eq in E1, E2. subst. reflexivity.
+Qed.
+
+(* ------------------------------------------------------------------ *)
+(* 5. Expect on the header Send printed                                *)
+
+Section WithParse.
+Variable parse : bytes -> option jid.
+
+Lemma from_attrs_app : forall l1 l2 i,
+  from_attrs parse (l1 ++ l2) i =
+  match from_attrs parse l1 i with
+  | (None, i') => from_attrs parse l2 i'
+  | r => r
+  end.
+Proof.
+  induction l1 as [|a l1 IH]; intros l2 i; [reflexivity|].
+  cbn [app from_attrs].
+  destruct (is_nil (a_space a)).
+  - destruct (bytes_eqb (a_local a) (str "xmlns")); [apply IH|].
+    destruct (bytes_eqb (a_local a) (str "to")).
+    { destruct (is_nil (a_val a)); [apply IH|]. destruct (parse (a_val a)); [apply IH | reflexivity]. }
+    destruct (bytes_eqb (a_local a) (str "from")).
+    { destruct (is_nil (a_val a)); [apply IH|]. destruct (parse (a_val a)); [apply IH | reflexivity]. }
+    destruct (bytes_eqb (a_local a) (str "id")); [apply IH|].
+    destruct (bytes_eqb (a_local a) (str "version")); [|apply IH].
+    destruct (parse_version (a_val a)); [apply IH | reflexivity].
+  - destruct (bytes_eqb (a_space a) (str "xml") && bytes_eqb (a_local a) (str "lang")); apply IH.
+Qed.
+
+(* a printed address: nothing when the JID is empty, else a string jid.Parse maps back *)
+Definition addr_ok (j : jid) : Prop := jid_string j = [] \/ parse (jid_string j) = Some j.
+
+Lemma from_attrs_id i id :
+  from_attrs parse (at_opt [] (str "id") id) i = (None, if is_nil id then i else set_id i id).
+Proof. unfold at_opt. destruct (is_nil id); reflexivity. Qed.
+
+Lemma from_attrs_to i j :
+  addr_ok j ->
+  from_attrs parse (at_opt [] (str "to") (jid_string j)) i = (None, if is_nil (jid_string j) then i else set_to i j).
+Proof.
+  intros [E|E]; unfold at_opt.
+  - rewrite E. reflexivity.
+  - destruct (is_nil (jid_string j)) eqn:N; [reflexivity|].
+    cbn [from_attrs a_space a_local a_val is_nil].
+    change (bytes_eqb (str "to") (str "xmlns")) with false.
+    change (bytes_eqb (str "to") (str "to")) with true. cbv iota.
+    rewrite N, E. reflexivity.
+Qed.
+
+Lemma from_attrs_from i j :
+  addr_ok j ->
+  from_attrs parse (at_opt [] (str "from") (jid_string j)) i = (None, if is_nil (jid_string j) then i else set_from i j).
+Proof.
+  intros [E|E]; unfold at_opt.
+  - rewrite E. reflexivity.
+  - destruct (is_nil (jid_string j)) eqn:N; [reflexivity|].
+    cbn [from_attrs a_space a_local a_val is_nil].
+    change (bytes_eqb (str "from") (str "xmlns")) with false.
+    change (bytes_eqb (str "from") (str "to")) with false.
+    change (bytes_eqb (str "from") (str "from")) with true. cbv iota.
+    rewrite N, E. reflexivity.
+Qed.
+
+(* stream/stream.go compares the attribute's name space with "xml"; the
+   decoder delivers the XML name space URI: the language is dropped *)
+Lemma from_attrs_lang i lang :
+  from_attrs parse (at_opt ns_xml (str "lang") lang) i = (None, i).
+Proof. unfold at_opt. destruct (is_nil lang); reflexivity. Qed.
+
+Definition recovered (i0 : info) (ns l xmlns : bytes) (jto jfrom : jid) (id : bytes) : info :=
+  mkinfo ns l xmlns
+         (if is_nil (jid_string jto) then i_to i0 else jto)
+         (if is_nil (jid_string jfrom) then i_from i0 else jfrom)
+         (if is_nil id then i_id i0 else id)
+         default_version (i_lang i0).
+
+Lemma from_start_tcp i0 xmlns lang jto jfrom id :
+  addr_ok jto -> addr_ok jfrom ->
+  from_start_element parse ns_stream (str "stream")
+    ([mkattr [] (str "xmlns") xmlns; mkattr (str "xmlns") (str "stream") ns_stream;
+      mkattr [] (str "version") (version_string default_version)] ++
+     hdr_token_attrs lang (jid_string jto) (jid_string jfrom) id) i0
+  = (None, recovered i0 ns_stream (str "stream") xmlns jto jfrom id).
+Proof.
+  intros Ht Hf. unfold from_start_element, hdr_token_attrs.
+  rewrite from_attrs_app.
+  replace (from_attrs parse [mkattr [] (str "xmlns") xmlns; mkattr (str "xmlns") (str "stream") ns_stream;
+                             mkattr [] (str "version") (version_string default_version)]
+                      (set_name i0 ns_stream (str "stream")))
+    with (@None eres, set_ver (set_xmlns (set_name i0 ns_stream (str "stream")) xmlns) default_version) by reflexivity.
+  rewrite from_attrs_app, from_attrs_id.
+  rewrite from_attrs_app, (from_attrs_to _ jto Ht).
+  rewrite from_attrs_app, (from_attrs_from _ jfrom Hf).
+  rewrite from_attrs_lang.
+  unfold recovered. destruct (is_nil id), (is_nil (jid_string jto)), (is_nil (jid_string jfrom)); reflexivity.
+Qed.
+
+Lemma from_start_ws i0 lang jto jfrom id :
+  addr_ok jto -> addr_ok jfrom ->
+  from_start_element parse ns_ws (str "open")
+    ([mkattr [] (str "xmlns") ns_ws; mkattr [] (str "version") (version_string default_version)] ++
+     hdr_token_attrs lang (jid_string jto) (jid_string jfrom) id) i0
+  = (None, recovered i0 ns_ws (str "open") ns_ws jto jfrom id).
+Proof.
+  intros Ht Hf. unfold from_start_element, hdr_token_attrs.
+  rewrite from_attrs_app.
+  replace (from_attrs parse [mkattr [] (str "xmlns") ns_ws; mkattr [] (str "version") (version_string default_version)]
+                      (set_name i0 ns_ws (str "open")))
+    with (@None eres, set_ver (set_xmlns (set_name i0 ns_ws (str "open")) ns_ws) default_version) by reflexivity.
+  rewrite from_attrs_app, from_attrs_id.
+  rewrite from_attrs_app, (from_attrs_to _ jto Ht).
+  rewrite from_attrs_app, (from_attrs_from _ jfrom Hf).
+  rewrite from_attrs_lang.
+  unfold recovered. destruct (is_nil id), (is_nil (jid_string jto)), (is_nil (jid_string jfrom)); reflexivity.
+Qed.
+
+(* Expect on the printed header: every value but the language comes back *)
+Lemma expect_tcp_header recv i0 xmlns lang jto jfrom id rest :
+  xmlns = ns_client \/ xmlns = ns_server ->
+  addr_ok jto -> addr_ok jfrom ->
+  let i' := recovered i0 ns_stream (str "stream") xmlns jto jfrom id in
+  expect parse recv false i0
+         (tcp_token xmlns default_version lang (jid_string jto) (jid_string jfrom) id :: rest) =
+  if negb recv && is_nil (i_id i') then (EStream c_bad_format, i', []) else (EOk, i', rest).
+Proof.
+  intros Hx Ht Hf i'. unfold expect, tcp_token. cbn [expect_go].
+  change (bytes_eqb ns_stream ns_stream && bytes_eqb (str "stream") (str "error")) with false.
+  change (bytes_eqb ns_stream ns_stream && negb (bytes_eqb (str "stream") (str "stream"))) with false.
+  cbv iota. unfold expect_start.
+  change (bytes_eqb (str "stream") (str "stream") && bytes_eqb ns_stream ns_stream) with true.
+  cbv beta iota zeta. cbn [negb].
+  rewrite (from_start_tcp i0 xmlns lang jto jfrom id Ht Hf). fold i'.
+  assert (V : ver_eqb (i_ver i') default_version = true) by reflexivity.
+  rewrite V. cbn [negb].
+  assert (X : negb (bytes_eqb (i_xmlns i') ns_client) && negb (bytes_eqb (i_xmlns i') ns_server) = false).
+  { unfold i', recovered; cbn [i_xmlns]. destruct Hx as [-> | ->]; reflexivity. }
+  cbn [andb]. rewrite X. reflexivity.
+Qed.
+
+Lemma expect_ws_header recv i0 lang jto jfrom id rest :
+  addr_ok jto -> addr_ok jfrom ->
+  let i' := recovered i0 ns_ws (str "open") ns_ws jto jfrom id in
+  expect parse recv true i0
+         (ws_token default_version lang (jid_string jto) (jid_string jfrom) id :: TEnd ns_ws (str "open") :: rest) =
+  if negb recv && is_nil (i_id i') then (EStream c_bad_format, i', []) else (EOk, i', rest).
+Proof.
+  intros Ht Hf i'. unfold expect, ws_token. cbn [expect_go].
+  change (bytes_eqb ns_ws ns_stream && bytes_eqb (str "open") (str "error")) with false.
+  change (bytes_eqb ns_ws ns_stream && negb (bytes_eqb (str "open") (str "stream"))) with false.
+  cbv iota. unfold expect_start.
+  change (bytes_eqb (str "open") (str "open") && bytes_eqb ns_ws ns_ws) with true.
+  cbv beta iota zeta. cbn [negb].
+  change (ws_skip 0 (TEnd ns_ws (str "open") :: rest)) with (EOk, rest).
+  cbv beta iota zeta.
+  rewrite (from_start_ws i0 lang jto jfrom id Ht Hf). fold i'.
+  assert (V : ver_eqb (i_ver i') default_version = true) by reflexivity.
+  rewrite V. cbn [negb andb]. reflexivity.
+Qed.
+
+End WithParse.
+
+(* ------------------------------------------------------------------ *)
+(* 6. What Expect accepts                                              *)
+
+(* encoding/xml never delivers an end element before the first start element *)
+Fixpoint no_end_before_start (ts : list tok) : bool :=
+  match ts with
+  | [] => true
+  | TStart _ _ _ :: _ => true
+  | TEnd _ _ :: _ => false
+  | _ :: r => no_end_before_start r
+  end.
+
+(* white space, after at most one leading XML declaration *)
+Fixpoint clean_prefix (started : bool) (pre : list tok) : bool :=
+  match pre with
+  | [] => true
+  | TChar b :: r => all_space b && clean_prefix true r
+  | TProcInst tg :: r => negb started && bytes_eqb tg (str "xml") && clean_prefix true r
+  | _ => false
+  end.
+
+Definition is_header (ws : bool) (ns l : bytes) : Prop :=
+  if ws then l = str "open" /\ ns = ns_ws else l = str "stream" /\ ns = ns_stream.
+
+Lemma ver_eqb_eq a b : ver_eqb a b = true -> a = b.
+Proof.
+  destruct a, b; unfold ver_eqb; cbn. intro H. apply andb_true_iff in H. destruct H as [H1 H2].
+  apply N.eqb_eq in H1, H2. congruence.
+Qed.
+
+Lemma stream_error_not_ok : forall ts sk c f, stream_error sk c f ts <> EOk.
+Proof.
+  induction ts as [|t r IH]; intros sk c f; cbn [stream_error]; [discriminate|].
+  destruct sk as [d|].
+  - destruct t; try apply IH.
+  - destruct t as [ns l a|ns l| | | |]; try apply IH.
+    + destruct (bytes_eqb ns ns_stream_error); apply IH.
+    + destruct f; discriminate.
+Qed.
+
+Section Accept.
+Variable parse : bytes -> option jid.
+
+Lemma from_attrs_err : forall attrs i e i1,
+  from_attrs parse attrs i = (Some e, i1) -> exists c, e = EStream c.
+Proof.
+  induction attrs as [|a r IH]; intros i e i1 H; cbn [from_attrs] in H; [discriminate|].
+  destruct (is_nil (a_space a)).
+  - destruct (bytes_eqb (a_local a) (str "xmlns")); [eapply IH; exact H|].
+    destruct (bytes_eqb (a_local a) (str "to")).
+    { destruct (is_nil (a_val a)); [eapply IH; exact H|].
+      destruct (parse (a_val a)); [eapply IH; exact H|]. inversion H; eexists; reflexivity. }
+    destruct (bytes_eqb (a_local a) (str "from")).
+    { destruct (is_nil (a_val a)); [eapply IH; exact H|].
+      destruct (parse (a_val a)); [eapply IH; exact H|]. inversion H; eexists; reflexivity. }
+    destruct (bytes_eqb (a_local a) (str "id")); [eapply IH; exact H|].
+    destruct (bytes_eqb (a_local a) (str "version")); [|eapply IH; exact H].
+    destruct (parse_version (a_val a)); [eapply IH; exact H|]. inversion H; eexists; reflexivity.
+  - destruct (bytes_eqb (a_space a) (str "xml") && bytes_eqb (a_local a) (str "lang")); eapply IH; exact H.
+Qed.
+
+Lemma expect_start_ok recv ws ns l attrs i r i' rest :
+  expect_start parse recv ws ns l attrs i r = (EOk, i', rest) ->
+  is_header ws ns l /\
+  from_start_element parse ns l attrs i = (None, i') /\
+  i_ver i' = default_version /\
+  (ws = false -> i_xmlns i' = ns_client \/ i_xmlns i' = ns_server) /\
+  (recv = false -> i_id i' <> []) /\
+  (if ws then ws_skip 0 r = (EOk, rest) else rest = r).
+Proof.
+  unfold expect_start.
+  destruct (negb (if ws then bytes_eqb l (str "open") && bytes_eqb ns ns_ws
+                  else bytes_eqb l (str "stream") && bytes_eqb ns ns_stream)) eqn:Hh; [discriminate|].
+  assert (Hhdr : is_header ws ns l).
+  { unfold is_header. apply negb_false_iff in Hh. destruct ws; apply andb_true_iff in Hh; destruct Hh as [A B];
+      apply bytes_eqb_eq in A, B; split; assumption. }
+  destruct (if ws then ws_skip 0 r else (EOk, r)) as [e r'] eqn:Hs.
+  destruct e; try discriminate.
+  destruct (from_start_element parse ns l attrs i) as [[err|] i1] eqn:Hf.
+  { intro H; inversion H; subst. destruct (from_attrs_err _ _ _ _ Hf) as [c Hc]. discriminate Hc. }
+  destruct (negb (ver_eqb (i_ver i1) default_version)) eqn:Hv; [discriminate|].
+  destruct (negb ws && negb (bytes_eqb (i_xmlns i1) ns_client) && negb (bytes_eqb (i_xmlns i1) ns_server)) eqn:Hx; [discriminate|].
+  destruct (negb recv && is_nil (i_id i1)) eqn:Hi; [discriminate|].
+  intro H; inversion H; subst. repeat split.
+  - exact Hhdr.
+  - apply ver_eqb_eq. apply negb_false_iff in Hv. exact Hv.
+  - intro W; subst ws. cbn [negb andb] in Hx.
+    destruct (bytes_eqb (i_xmlns i') ns_client) eqn:C; [left; apply bytes_eqb_eq; exact C|].
+    destruct (bytes_eqb (i_xmlns i') ns_server) eqn:S; [right; apply bytes_eqb_eq; exact S|].
+    discriminate.
+  - intro R; subst recv. cbn [negb andb] in Hi. intro E. rewrite E in Hi. discriminate.
+  - destruct ws; [exact Hs | inversion Hs; reflexivity].
+Qed.
+
+Lemma expect_go_ok : forall ts recv ws started i i' rest,
+  no_end_before_start ts = true ->
+  expect_go parse recv ws started false i ts = (EOk, i', rest) ->
+  exists pre ns l attrs post,
+    ts = pre ++ TStart ns l attrs :: post /\
+    clean_prefix started pre = true /\
+    is_header ws ns l /\
+    from_start_element parse ns l attrs i = (None, i') /\
+    i_ver i' = default_version /\
+    (ws = false -> i_xmlns i' = ns_client \/ i_xmlns i' = ns_server) /\
+    (recv = false -> i_id i' <> []) /\
+    (if ws then ws_skip 0 post = (EOk, rest) else rest = post).
+Proof.
+  induction ts as [|t r IH]; intros recv ws started i i' rest Hn H; [discriminate|].
+  destruct t as [ns l attrs|ns l|b| |tg|]; cbn [expect_go] in H; cbn [no_end_before_start] in Hn.
+  - (* start *)
+    destruct (bytes_eqb ns ns_stream && bytes_eqb l (str "error")).
+    { inversion H as [[E1 E2 E3]]. exfalso. exact (stream_error_not_ok _ _ _ _ E1). }
+    destruct (bytes_eqb ns ns_stream && negb (bytes_eqb l (str "stream"))); [discriminate|].
+    destruct (expect_start_ok _ _ _ _ _ _ _ _ _ H) as (A & B & C & D & E & F).
+    exists [], ns, l, attrs, r. repeat split; assumption.
+  - discriminate.
+  - (* character data *)
+    cbn [orb] in H. destruct (all_space b) eqn:Sp; [|discriminate].
+    destruct (IH _ _ _ _ _ _ Hn H) as (pre & ns & l & attrs & post & E & Cl & Rest).
+    exists (TChar b :: pre), ns, l, attrs, post. split; [rewrite E; reflexivity|].
+    split; [cbn [clean_prefix]; rewrite Sp, Cl; reflexivity | exact Rest].
+  - discriminate.
+  - (* processing instruction *)
+    destruct (negb started && bytes_eqb tg (str "xml")) eqn:D; [|discriminate].
+    destruct (IH _ _ _ _ _ _ Hn H) as (pre & ns & l & attrs & post & E & Cl & Rest).
+    exists (TProcInst tg :: pre), ns, l, attrs, post. split; [rewrite E; reflexivity|].
+    split; [cbn [clean_prefix]; rewrite D, Cl; reflexivity | exact Rest].
+  - discriminate.
+Qed.
+
+End Accept.
+
+(* ------------------------------------------------------------------ *)
+(* 7. Where the fields of the Info come from                           *)
+
+Section Fields.
+Variable parse : bytes -> option jid.
+
+Definition has_attr (attrs : list attr) (local : bytes) (P : bytes -> Prop) : Prop :=
+  exists a, In a attrs /\ a_space a = [] /\ a_local a = local /\ P (a_val a).
+
+Lemma has_attr_cons a attrs local P : has_attr attrs local P -> has_attr (a :: attrs) local P.
+Proof. intros (x & I & R). exists x. split; [right; exact I | exact R]. Qed.
+
+Ltac fa_step H IH a :=
+  cbn [from_attrs] in H;
+  destruct (is_nil (a_space a)) eqn:Sp;
+  [ destruct (bytes_eqb (a_local a) (str "xmlns")) eqn:L1;
+    [ | destruct (bytes_eqb (a_local a) (str "to")) eqn:L2;
+        [ destruct (is_nil (a_val a)) eqn:V2; [ | destruct (parse (a_val a)) as [j2|] eqn:P2; [ | discriminate H ] ]
+        | destruct (bytes_eqb (a_local a) (str "from")) eqn:L3;
+          [ destruct (is_nil (a_val a)) eqn:V3; [ | destruct (parse (a_val a)) as [j3|] eqn:P3; [ | discriminate H ] ]
+          | destruct (bytes_eqb (a_local a) (str "id")) eqn:L4;
+            [ | destruct (bytes_eqb (a_local a) (str "version")) eqn:L5;
+                [ destruct (parse_version (a_val a)) as [v5|] eqn:P5; [ | discriminate H ] | ] ] ] ] ]
+  | destruct (bytes_eqb (a_space a) (str "xml") && bytes_eqb (a_local a) (str "lang")) ];
+  specialize (IH _ _ H).
+
+Lemma from_attrs_to_src : forall attrs i i',
+  from_attrs parse attrs i = (None, i') ->
+  i_to i' = i_to i \/ has_attr attrs (str "to") (fun v => parse v = Some (i_to i')).
+Proof.
+  induction attrs as [|a r IH]; intros i i' H; [inversion H; left; reflexivity|].
+  fa_step H IH a; cbn in IH;
+    try (destruct IH as [IH|IH]; [left; exact IH | right; apply has_attr_cons; exact IH]).
+  destruct IH as [IH|IH]; [|right; apply has_attr_cons; exact IH].
+  right. exists a. split; [left; reflexivity|]. apply is_nil_true in Sp. apply bytes_eqb_eq in L2.
+  repeat split; try assumption. rewrite IH. exact P2.
+Qed.
+
+Lemma from_attrs_from_src : forall attrs i i',
+  from_attrs parse attrs i = (None, i') ->
+  i_from i' = i_from i \/ has_attr attrs (str "from") (fun v => parse v = Some (i_from i')).
+Proof.
+  induction attrs as [|a r IH]; intros i i' H; [inversion H; left; reflexivity|].
+  fa_step H IH a; cbn in IH;
+    try (destruct IH as [IH|IH]; [left; exact IH | right; apply has_attr_cons; exact IH]).
+  destruct IH as [IH|IH]; [|right; apply has_attr_cons; exact IH].
+  right. exists a. split; [left; reflexivity|]. apply is_nil_true in Sp. apply bytes_eqb_eq in L3.
+  repeat split; try assumption. rewrite IH. exact P3.
+Qed.
+
+Lemma from_attrs_id_src : forall attrs i i',
+  from_attrs parse attrs i = (None, i') ->
+  i_id i' = i_id i \/ has_attr attrs (str "id") (fun v => v = i_id i').
+Proof.
+  induction attrs as [|a r IH]; intros i i' H; [inversion H; left; reflexivity|].
+  fa_step H IH a; cbn in IH;
+    try (destruct IH as [IH|IH]; [left; exact IH | right; apply has_attr_cons; exact IH]).
+  destruct IH as [IH|IH]; [|right; apply has_attr_cons; exact IH].
+  right. exists a. split; [left; reflexivity|]. apply is_nil_true in Sp. apply bytes_eqb_eq in L4.
+  repeat split; try assumption. symmetry; exact IH.
+Qed.
+
+Lemma from_attrs_xmlns_src : forall attrs i i',
+  from_attrs parse attrs i = (None, i') ->
+  i_xmlns i' = i_xmlns i \/ has_attr attrs (str "xmlns") (fun v => v = i_xmlns i').
+Proof.
+  induction attrs as [|a r IH]; intros i i' H; [inversion H; left; reflexivity|].
+  fa_step H IH a; cbn in IH;
+    try (destruct IH as [IH|IH]; [left; exact IH | right; apply has_attr_cons; exact IH]).
+  destruct IH as [IH|IH]; [|right; apply has_attr_cons; exact IH].
+  right. exists a. split; [left; reflexivity|]. apply is_nil_true in Sp. apply bytes_eqb_eq in L1.
+  repeat split; try assumption. symmetry; exact IH.
+Qed.
+
+Lemma from_attrs_ver_src : forall attrs i i',
+  from_attrs parse attrs i = (None, i') ->
+  i_ver i' = i_ver i \/ has_attr attrs (str "version") (fun v => parse_version v = Some (i_ver i')).
+Proof.
+  induction attrs as [|a r IH]; intros i i' H; [inversion H; left; reflexivity|].
+  fa_step H IH a; cbn in IH;
+    try (destruct IH as [IH|IH]; [left; exact IH | right; apply has_attr_cons; exact IH]).
+  destruct IH as [IH|IH]; [|right; apply has_attr_cons; exact IH].
+  right. exists a. split; [left; reflexivity|]. apply is_nil_true in Sp. apply bytes_eqb_eq in L5.
+  repeat split; try assumption. rewrite IH. exact P5.
+Qed.
+
+End Fields.
+
+(* ------------------------------------------------------------------ *)
+(* 8. A stream error in place of a header                              *)
+
+Lemma node_ind2 (P : node -> Prop) :
+  (forall b, P (NText b)) ->
+  (forall ns l a ks, Forall P ks -> P (NElem ns l a ks)) ->
+  forall n, P n.
+Proof.
+  intros Ht He. fix IH 1. intros [ns l a ks|b].
+  - apply He. induction ks as [|k ks IHks]; constructor; [apply IH | exact IHks].
+  - apply Ht.
+Qed.
+
+Lemma skip_node : forall n d c f r,
+  stream_error (Some d) c f (flatten n ++ r) = stream_error (Some d) c f r.
+Proof.
+  induction n as [b|ns l a ks IHks] using node_ind2; intros d c f r.
+  - reflexivity.
+  - cbn [flatten app stream_error].
+    assert (K : forall d' r', stream_error (Some d') c f (flat_map flatten ks ++ r') = stream_error (Some d') c f r').
+    { induction IHks as [|k ks Hk _ IHl]; intros d' r'; [reflexivity|].
+      cbn [flat_map]. rewrite <- app_assoc, Hk. apply IHl. }
+    rewrite <- app_assoc, K. reflexivity.
+Qed.
+
+(* the condition UnmarshalXML reports: the last child in the stream error name
+   space that is not <text/> *)
+Fixpoint cond_of (kids : list node) (c : bytes) : bytes :=
+  match kids with
+  | [] => c
+  | NElem ns l _ _ :: r =>
+      cond_of r (if bytes_eqb ns ns_stream_error then (if bytes_eqb l (str "text") then c else l) else c)
+  | NText _ :: r => cond_of r c
+  end.
+
+(* children defined by RFC 6120: character data and elements of the stream error name space *)
+Definition defined_child (n : node) : bool :=
+  match n with
+  | NText _ => true
+  | NElem ns _ _ _ => bytes_eqb ns ns_stream_error
+  end.
+
+Lemma stream_error_defined : forall kids c ens el rest,
+  forallb defined_child kids = true ->
+  stream_error None c false (flat_map flatten kids ++ TEnd ens el :: rest) = EStream (cond_of kids c).
+Proof.
+  induction kids as [|k kids IH]; intros c ens el rest H; [reflexivity|].
+  cbn [forallb] in H. apply andb_true_iff in H. destruct H as [Hk Hr].
+  destruct k as [ns l a ks|b].
+  - cbn [defined_child] in Hk. cbn [flat_map flatten cond_of]. rewrite Hk.
+    cbn [app stream_error]. rewrite Hk.
+    rewrite <- !app_assoc.
+    assert (K : forall d c' r', stream_error (Some d) c' false (flat_map flatten ks ++ r') = stream_error (Some d) c' false r').
+    { clear. induction ks as [|k ks IHl]; intros d c' r'; [reflexivity|].
+      cbn [flat_map]. rewrite <- app_assoc, skip_node. apply IHl. }
+    rewrite K. cbn [app stream_error]. apply IH. exact Hr.
+  - cbn [flat_map flatten app stream_error cond_of]. apply IH. exact Hr.
+Qed.
+
+(* ------------------------------------------------------------------ *)
+(* 9. Addresses across restarts                                        *)
+
+Section Restart.
+Variable parse : bytes -> option jid.
+
+Lemma expect_go_from_start : forall ts recv ws started deep i i' rest,
+  expect_go parse recv ws started deep i ts = (EOk, i', rest) ->
+  exists ns l attrs, from_start_element parse ns l attrs i = (None, i').
+Proof.
+  induction ts as [|t r IH]; intros recv ws started deep i i' rest H; [discriminate|].
+  destruct t as [ns l attrs|ns l|b| |tg|]; cbn [expect_go] in H.
+  - destruct (bytes_eqb ns ns_stream && bytes_eqb l (str "error")).
+    { inversion H as [[E1 E2 E3]]. exfalso. exact (stream_error_not_ok _ _ _ _ E1). }
+    destruct (bytes_eqb ns ns_stream && negb (bytes_eqb l (str "stream"))); [discriminate|].
+    destruct (expect_start_ok _ _ _ _ _ _ _ _ _ _ H) as (_ & B & _). exists ns, l, attrs. exact B.
+  - destruct (bytes_eqb ns ns_stream); [destruct (bytes_eqb l (str "stream")); discriminate|].
+    eapply IH; exact H.
+  - destruct (deep || all_space b); [eapply IH; exact H | discriminate].
+  - discriminate.
+  - destruct (negb started && bytes_eqb tg (str "xml")); [eapply IH; exact H | discriminate].
+  - discriminate.
+Qed.
+
+(* after an accepted header, an address is the one before or one jid.Parse produced *)
+Lemma expect_to : forall recv ws i ts i' rest,
+  expect parse recv ws i ts = (EOk, i', rest) ->
+  i_to i' = i_to i \/ exists v, parse v = Some (i_to i').
+Proof.
+  intros recv ws i ts i' rest H. destruct (expect_go_from_start _ _ _ _ _ _ _ _ H) as (ns & l & attrs & F).
+  unfold from_start_element in F. destruct (from_attrs_to_src parse _ _ _ F) as [E|(a & _ & _ & _ & P)].
+  - left. exact E.
+  - right. exists (a_val a). exact P.
+Qed.
+
+Lemma expect_from : forall recv ws i ts i' rest,
+  expect parse recv ws i ts = (EOk, i', rest) ->
+  i_from i' = i_from i \/ exists v, parse v = Some (i_from i').
+Proof.
+  intros recv ws i ts i' rest H. destruct (expect_go_from_start _ _ _ _ _ _ _ _ H) as (ns & l & attrs & F).
+  unfold from_start_element in F. destruct (from_attrs_from_src parse _ _ _ F) as [E|(a & _ & _ & _ & P)].
+  - left. exact E.
+  - right. exists (a_val a). exact P.
+Qed.
+
+Lemma round_recv s2s ws lang rid i ts i' w :
+  neg_round parse true s2s ws lang rid i ts = (NOk, i', w) ->
+  (i_to i = jid_zero \/ i_to i' = i_to i) /\
+  ((s2s = false /\ i_from i = jid_zero) \/ i_from i' = i_from i) /\
+  w = send_header ws (content_ns s2s) default_version lang (jid_string (i_from i')) (jid_string (i_to i')) rid.
+Proof.
+  unfold neg_round. destruct (expect parse true ws i ts) as [[e i1] r1] eqn:E.
+  destruct e; try discriminate.
+  destruct (negb ((negb s2s && jid_eqb (i_from i) jid_zero) || jid_eqb (i_from i) (i_from i1))) eqn:O; [discriminate|].
+  destruct (negb (jid_eqb (i_to i) jid_zero || jid_eqb (i_to i) (i_to i1))) eqn:L; [discriminate|].
+  intro H; inversion H; subst. apply negb_false_iff in O, L. repeat split.
+  - apply orb_true_iff in L. destruct L as [L|L]; apply jid_eqb_eq in L; [left | right]; congruence.
+  - apply orb_true_iff in O. destruct O as [O|O].
+    + apply andb_true_iff in O. destruct O as [O1 O2]. left. split; [destruct s2s; [discriminate|reflexivity] | apply jid_eqb_eq; exact O2].
+    + right. apply jid_eqb_eq in O. congruence.
+Qed.
+
+Hypothesis parse_nonzero : forall v j, parse v = Some j -> j <> jid_zero.
+
+Lemma round_init s2s ws lang rid i ts i' w :
+  neg_round parse false s2s ws lang rid i ts = (NOk, i', w) ->
+  i_from i' = i_from i /\ i_to i' = i_to i /\
+  w = send_header ws (content_ns s2s) default_version lang (jid_string (i_from i)) (jid_string (i_to i)) [].
+Proof.
+  unfold neg_round. destruct (expect parse false ws i ts) as [[e i1] r1] eqn:E.
+  destruct e; try discriminate.
+  destruct (negb (jid_eqb (i_from i) (i_from i1))) eqn:L; [discriminate|].
+  destruct (negb (jid_eqb (i_to i1) jid_zero) && negb (jid_eqb (i_to i) (i_to i1))) eqn:O; [discriminate|].
+  intro H; inversion H; subst. apply negb_false_iff in L. apply jid_eqb_eq in L. repeat split.
+  - congruence.
+  - destruct (expect_to _ _ _ _ _ _ E) as [T|[v P]]; [exact T|].
+    apply parse_nonzero in P. apply jid_eqb_neq in P. rewrite P in O. cbn [negb andb] in O.
+    apply negb_false_iff in O. apply jid_eqb_eq in O. congruence.
+Qed.
+
+Lemma reset_to i : i_to (reset_info i) = i_to i. Proof. reflexivity. Qed.
+Lemma reset_from i : i_from (reset_info i) = i_from i. Proof. reflexivity. Qed.
+
+Lemma rounds_init s2s ws lang : forall rounds i i' wires,
+  neg_rounds parse false s2s ws lang i rounds = (NOk, i', wires) ->
+  i_to i' = i_to i /\ i_from i' = i_from i.
+Proof.
+  induction rounds as [|[rid ts] rest IH]; intros i i' wires H; cbn [neg_rounds] in H.
+  - inversion H; split; reflexivity.
+  - destruct (neg_round parse false s2s ws lang rid (reset_info i) ts) as [[res i1] w] eqn:R.
+    destruct res; try discriminate.
+    destruct (neg_rounds parse false s2s ws lang i1 rest) as [[res2 i2] ws'] eqn:R2.
+    inversion H; subst.
+    destruct (round_init _ _ _ _ _ _ _ _ R) as (F & T & _).
+    destruct (IH _ _ _ R2) as (T2 & F2). rewrite reset_to in T. rewrite reset_from in F. split; congruence.
+Qed.
+
+Lemma rounds_recv s2s ws lang : forall rounds i i' wires,
+  neg_rounds parse true s2s ws lang i rounds = (NOk, i', wires) ->
+  (i_to i <> jid_zero -> i_to i' = i_to i) /\
+  (i_from i <> jid_zero -> i_from i' = i_from i) /\
+  (s2s = true -> i_from i' = i_from i).
+Proof.
+  induction rounds as [|[rid ts] rest IH]; intros i i' wires H; cbn [neg_rounds] in H.
+  - inversion H; repeat split; reflexivity.
+  - destruct (neg_round parse true s2s ws lang rid (reset_info i) ts) as [[res i1] w] eqn:R.
+    destruct res; try discriminate.
+    destruct (neg_rounds parse true s2s ws lang i1 rest) as [[res2 i2] ws'] eqn:R2.
+    inversion H; subst.
+    destruct (round_recv _ _ _ _ _ _ _ _ R) as (T & F & _).
+    destruct (IH _ _ _ R2) as (T2 & F2 & S2). rewrite reset_to in T. rewrite reset_from in F.
+    repeat split.
+    + intro N. destruct T as [T|T]; [contradiction|]. rewrite <- T in N. rewrite (T2 N). exact T.
+    + intro N. destruct F as [[_ F]|F]; [contradiction|]. rewrite <- F in N. rewrite (F2 N). exact F.
+    + intro S. destruct F as [[F _]|F]; [congruence|]. rewrite (S2 S). exact F.
+Qed.
+
+End Restart.
+
+(* ------------------------------------------------------------------ *)
+(* 10. Resource binding                                                *)
+
+Section Bind.
+Variable parse : bytes -> option jid.
+
+Definition opt_id (reqid : bytes) : list attr := if is_nil reqid then [] else [mkattr [] (str "id") reqid].
+
+Lemma iq_attrs_plain type reqid :
+  iq_attrs type jid_zero jid_zero reqid = mkattr [] (str "type") type :: opt_id reqid.
+Proof. reflexivity. Qed.
+
+(* the receiving side's decoding of the initiating side's request *)
+Lemma decode_request reqid res :
+  decode_bind_iq parse (iq_attrs iq_set jid_zero jid_zero reqid)
+                 [NElem ns_bind (str "bind") [] (payload_nodes res jid_zero)]
+  = Some (mkbiq reqid iq_set jid_zero jid_zero res jid_zero false).
+Proof.
+  rewrite iq_attrs_plain. unfold decode_bind_iq, opt_id, payload_nodes.
+  destruct (is_nil reqid) eqn:Ni; destruct (is_nil res) eqn:Nr; cbn [negb];
+    try (apply is_nil_true in Ni; subst reqid); try (apply is_nil_true in Nr; subst res);
+    cbn; rewrite ?app_nil_r; reflexivity.
+Qed.
+
+Lemma request_id reqid : attr_first (str "id") (iq_attrs iq_set jid_zero jid_zero reqid) = reqid.
+Proof.
+  rewrite iq_attrs_plain. unfold opt_id. destruct (is_nil reqid) eqn:N; [apply is_nil_true in N; subst|]; reflexivity.
+Qed.
+
+Lemma server_gets_resource reqid res v :
+  snd (fst (bind_server parse false (IElem (bind_request reqid res)) v)) =
+  Some res.
+Proof.
+  unfold bind_server, bind_request.
+  change (negb (bytes_eqb ns_client (content_ns false) && bytes_eqb (str "iq") (str "iq"))) with false. cbv iota.
+  rewrite decode_request. destruct v; reflexivity.
+Qed.
+
+(* what the initiating side accepts *)
+Lemma bind_client_spec reqid reply local res l' :
+  bind_client parse reqid reply local = (res, l') ->
+  (res = BReady ->
+     exists attrs kids q,
+       reply = IElem (NElem ns_client (str "iq") attrs kids) /\
+       decode_bind_iq parse attrs kids = Some q /\
+       b_id q = reqid /\ b_type q = iq_result /\ b_jid q <> jid_zero /\ l' = b_jid q) /\
+  (res <> BReady -> l' = local).
+Proof.
+  unfold bind_client. intro H.
+  destruct reply as [[ns l attrs kids|b]| |r].
+  - destruct (negb (bytes_eqb ns ns_client && bytes_eqb l (str "iq"))) eqn:N.
+    { inversion H; subst. split; [discriminate | reflexivity]. }
+    apply negb_false_iff, andb_true_iff in N. destruct N as [N1 N2]. apply bytes_eqb_eq in N1, N2. subst ns l.
+    destruct (decode_bind_iq parse attrs kids) as [q|] eqn:D.
+    2:{ inversion H; subst. split; [discriminate | reflexivity]. }
+    destruct (negb (bytes_eqb (b_id q) reqid)) eqn:I.
+    { inversion H; subst. split; [discriminate | reflexivity]. }
+    apply negb_false_iff, bytes_eqb_eq in I.
+    destruct (bytes_eqb (b_type q) iq_result) eqn:T.
+    2:{ inversion H; subst. split; [discriminate | reflexivity]. }
+    apply bytes_eqb_eq in T.
+    destruct (jid_eqb (b_jid q) jid_zero) eqn:Z.
+    { inversion H; subst. split; [discriminate | reflexivity]. }
+    apply jid_eqb_neq in Z. inversion H; subst. split; [|intro C; contradiction].
+    intros _. exists attrs, kids, q. repeat split; assumption.
+  - inversion H; subst. split; [discriminate | reflexivity].
+  - inversion H; subst. split; [discriminate | reflexivity].
+  - inversion H; subst. split; [|reflexivity].
+    intro R. destruct r; discriminate R.
+Qed.
+
+(* request -> receiving side -> reply -> initiating side *)
+Lemma bind_roundtrip_jid reqid res j local :
+  is_nil (jid_string j) = false -> parse (jid_string j) = Some j -> j <> jid_zero ->
+  exists n,
+    bind_server parse false (IElem (bind_request reqid res)) (VJid j) = (BReady, Some res, flatten n) /\
+    bind_client parse reqid (IElem n) local = (BReady, j).
+Proof.
+  intros Ns P Z.
+  exists (NElem ns_client (str "iq") (iq_attrs iq_result jid_zero jid_zero reqid)
+                [NElem ns_bind (str "bind") [] (payload_nodes [] j)]).
+  split.
+  - unfold bind_server, bind_request.
+    change (negb (bytes_eqb ns_client (content_ns false) && bytes_eqb (str "iq") (str "iq"))) with false. cbv iota.
+    rewrite decode_request, request_id. reflexivity.
+  - unfold bind_client.
+    change (negb (bytes_eqb ns_client ns_client && bytes_eqb (str "iq") (str "iq"))) with false. cbv iota.
+    assert (D : decode_bind_iq parse (iq_attrs iq_result jid_zero jid_zero reqid)
+                               [NElem ns_bind (str "bind") [] (payload_nodes [] j)]
+                = Some (mkbiq reqid iq_result jid_zero jid_zero [] j false)).
+    { rewrite iq_attrs_plain. unfold decode_bind_iq, opt_id, payload_nodes. cbn [is_nil negb]. rewrite Ns. cbn [negb].
+      destruct (is_nil reqid) eqn:Ni; [apply is_nil_true in Ni; subst reqid|];
+        cbn; rewrite ?app_nil_r, P; reflexivity. }
+    rewrite D. cbn [b_id b_type b_jid]. rewrite bytes_eqb_refl. cbn [negb].
+    change (bytes_eqb iq_result iq_result) with true. cbv iota.
+    apply jid_eqb_neq in Z. rewrite Z. reflexivity.
+Qed.
+
+Lemma bind_roundtrip_error reqid res ens a ks local :
+  exists n,
+    bind_server parse false (IElem (bind_request reqid res)) (VStanzaErr [NElem ens (str "error") a ks])
+      = (BReady, Some res, flatten n) /\
+    bind_client parse reqid (IElem n) local = (BStanzaErr, local).
+Proof.
+  exists (NElem ns_client (str "iq") (iq_attrs iq_error jid_zero jid_zero reqid) [NElem ens (str "error") a ks]).
+  split.
+  - unfold bind_server, bind_request.
+    change (negb (bytes_eqb ns_client (content_ns false) && bytes_eqb (str "iq") (str "iq"))) with false. cbv iota.
+    rewrite decode_request, request_id. reflexivity.
+  - unfold bind_client.
+    change (negb (bytes_eqb ns_client ns_client && bytes_eqb (str "iq") (str "iq"))) with false. cbv iota.
+    assert (D : decode_bind_iq parse (iq_attrs iq_error jid_zero jid_zero reqid) [NElem ens (str "error") a ks]
+                = Some (mkbiq reqid iq_error jid_zero jid_zero [] jid_zero true)).
+    { rewrite iq_attrs_plain. unfold decode_bind_iq, opt_id.
+      destruct (is_nil reqid) eqn:Ni; [apply is_nil_true in Ni; subst reqid|];
+        cbn [jid_attr a_local a_val attr_last iq_kids];
+        change (bytes_eqb (str "error") (str "bind")) with false; cbn [andb];
+        change (bytes_eqb (str "error") (str "error")) with true; reflexivity. }
+    rewrite D. cbn [b_id b_type]. rewrite bytes_eqb_refl. cbn [negb].
+    change (bytes_eqb iq_error iq_result) with false. reflexivity.
+Qed.
+
+(* the reply answers the request's id, with the addresses swapped, in every case *)
+Lemma bind_server_reply s2s attrs kids v q :
+  decode_bind_iq parse attrs kids = Some q ->
+  bind_server parse s2s (IElem (NElem (content_ns s2s) (str "iq") attrs kids)) v =
+  match v with
+  | VFail => (BOther, Some (b_resource q), [])
+  | VJid j =>
+      (BReady, Some (b_resource q),
+       flatten (NElem (content_ns s2s) (str "iq") (iq_attrs iq_result (b_from q) (b_to q) (attr_first (str "id") attrs))
+                      [NElem ns_bind (str "bind") [] (payload_nodes [] j)]))
+  | VStanzaErr en =>
+      (BReady, Some (b_resource q),
+       flatten (NElem (content_ns s2s) (str "iq") (iq_attrs iq_error (b_from q) (b_to q) (attr_first (str "id") attrs)) en))
+  end.
+Proof.
+  intro D. unfold bind_server. rewrite bytes_eqb_refl.
+  change (bytes_eqb (str "iq") (str "iq")) with true. cbn [andb negb]. rewrite D. reflexivity.
+Qed.
+
+End Bind.
+
+(* ------------------------------------------------------------------ *)
+(* 11. Statements assembled for Properties.v                           *)
+
+Definition valid_value (s : bytes) : Prop := text_ok s = true.
+
+(* a valid address in the model: its string is clean text that jid.Parse maps back to it *)
+Definition valid_jid (parse : bytes -> option jid) (j : jid) : Prop :=
+  text_ok (jid_string j) = true /\ (jid_string j = [] \/ parse (jid_string j) = Some j).
+
+Lemma header_end_to_end_tcp parse recv i0 xmlns lang jto jfrom id rest :
+  xmlns = ns_client \/ xmlns = ns_server ->
+  valid_jid parse jto -> valid_jid parse jfrom -> valid_value lang -> valid_value id ->
+  exists t,
+    read_start (send_header false xmlns default_version lang (jid_string jto) (jid_string jfrom) id ++ rest)
+      = Some (t, false, rest) /\
+    t = tcp_token xmlns default_version lang (jid_string jto) (jid_string jfrom) id /\
+    let i' := recovered i0 ns_stream (str "stream") xmlns jto jfrom id in
+    expect parse recv false i0 [t] =
+      if negb recv && is_nil (i_id i') then (EStream c_bad_format, i', []) else (EOk, i', []).
+Proof.
+  intros Hx [Tt At] [Tf Af] Hl Hi.
+  exists (tcp_token xmlns default_version lang (jid_string jto) (jid_string jfrom) id).
+  split; [|split; [reflexivity|]].
+  - apply read_start_tcp; try assumption; try (cbn; lia);
+      destruct Hx as [-> | ->]; reflexivity.
+  - apply expect_tcp_header; assumption.
+Qed.
+
+Lemma header_end_to_end_ws parse recv i0 xmlns lang jto jfrom id rest :
+  valid_jid parse jto -> valid_jid parse jfrom -> valid_value lang -> valid_value id ->
+  exists t,
+    read_start (send_header true xmlns default_version lang (jid_string jto) (jid_string jfrom) id ++ rest)
+      = Some (t, true, rest) /\
+    t = ws_token default_version lang (jid_string jto) (jid_string jfrom) id /\
+    let i' := recovered i0 ns_ws (str "open") ns_ws jto jfrom id in
+    expect parse recv true i0 [t; TEnd ns_ws (str "open")] =
+      if negb recv && is_nil (i_id i') then (EStream c_bad_format, i', []) else (EOk, i', []).
+Proof.
+  intros [Tt At] [Tf Af] Hl Hi.
+  exists (ws_token default_version lang (jid_string jto) (jid_string jfrom) id).
+  split; [|split; [reflexivity|]].
+  - apply read_start_ws; try assumption; cbn; lia.
+  - apply expect_ws_header; assumption.
+Qed.
+
+(* the language: what the property asks, and why the faithful model refutes it *)
+Definition language_recovered_statement : Prop :=
+  forall parse recv i0 xmlns lang jto jfrom id i' rest,
+    (xmlns = ns_client \/ xmlns = ns_server) -> valid_jid parse jto -> valid_jid parse jfrom ->
+    valid_value lang -> valid_value id ->
+    expect parse recv false i0 [tcp_token xmlns default_version lang (jid_string jto) (jid_string jfrom) id] = (EOk, i', rest) ->
+    i_lang i' = lang.
+
+Lemma language_refuted : ~ language_recovered_statement.
+Proof.
+  intro H.
+  specialize (H (fun _ => None) true info_zero ns_client (str "en") jid_zero jid_zero (str "x")
+                (recovered info_zero ns_stream (str "stream") ns_client jid_zero jid_zero (str "x")) []).
+  assert (E : i_lang (recovered info_zero ns_stream (str "stream") ns_client jid_zero jid_zero (str "x")) = str "en").
+  { apply H; try (left; reflexivity); try reflexivity; split; try reflexivity; left; reflexivity. }
+  discriminate E.
+Qed.
+
+(* a fresh Info (negotiateSession resets it before every header): the accepted
+   element itself declares the version, the content name space and the id *)
+Lemma accepted_declares parse recv ws ts i i' rest :
+  no_end_before_start ts = true ->
+  i_ver i <> default_version -> i_xmlns i = [] -> i_id i = [] ->
+  expect parse recv ws i ts = (EOk, i', rest) ->
+  exists pre ns l attrs post,
+    ts = pre ++ TStart ns l attrs :: post /\ clean_prefix false pre = true /\ is_header ws ns l /\
+    has_attr attrs (str "version") (fun v => parse_version v = Some default_version) /\
+    (ws = false -> has_attr attrs (str "xmlns") (fun v => v = ns_client \/ v = ns_server)) /\
+    (recv = false -> has_attr attrs (str "id") (fun v => v <> [])) /\
+    (if ws then ws_skip 0 post = (EOk, rest) else rest = post).
+Proof.
+  intros Hn Hv Hx Hi H. unfold expect in H.
+  destruct (expect_go_ok parse _ _ _ _ _ _ _ Hn H) as (pre & ns & l & attrs & post & E & Cl & Hd & F & V & X & I & R).
+  exists pre, ns, l, attrs, post. unfold from_start_element in F.
+  repeat split; try assumption.
+  - destruct (from_attrs_ver_src parse _ _ _ F) as [A|(a & In_ & S & L & P)].
+    + cbn in A. congruence.
+    + exists a. rewrite V in P. repeat split; assumption.
+  - intro W. destruct (from_attrs_xmlns_src parse _ _ _ F) as [A|(a & In_ & S & L & P)].
+    + cbn in A. rewrite Hx in A. destruct (X W) as [C|C]; rewrite A in C; discriminate C.
+    + exists a. repeat split; try assumption. rewrite P. exact (X W).
+  - intro Rv. destruct (from_attrs_id_src parse _ _ _ F) as [A|(a & In_ & S & L & P)].
+    + cbn in A. rewrite Hi in A. exfalso. exact (I Rv A).
+    + exists a. repeat split; try assumption. rewrite P. exact (I Rv).
+Qed.
+
+(* a complete stream error whose children are those RFC 6120 defines, after a clean prefix *)
+Lemma stream_error_returned parse recv ws i attrs kids ens el rest :
+  forallb defined_child kids = true ->
+  expect parse recv ws i (TStart ns_stream (str "error") attrs :: flat_map flatten kids ++ TEnd ens el :: rest)
+  = (EStream (cond_of kids []), i, []).
+Proof.
+  intro H. unfold expect. cbn [expect_go].
+  change (bytes_eqb ns_stream ns_stream && bytes_eqb (str "error") (str "error")) with true. cbv iota.
+  rewrite (stream_error_defined kids [] ens el rest H). reflexivity.
+Qed.
+
+Lemma expect_skips_clean_prefix parse recv ws : forall pre started i ts,
+  clean_prefix started pre = true ->
+  expect_go parse recv ws started false i (pre ++ ts) = expect_go parse recv ws true false i ts \/ pre = [].
+Proof.
+  induction pre as [|t pre IH]; intros started i ts H; [right; reflexivity|]. left.
+  destruct t as [| |b| |tg|]; cbn [clean_prefix] in H; try discriminate.
+  - apply andb_true_iff in H. destruct H as [Sp Cl]. cbn [app expect_go orb]. rewrite Sp.
+    destruct (IH true i ts Cl) as [E|E]; [exact E | subst; reflexivity].
+  - apply andb_true_iff in H. destruct H as [D Cl]. cbn [app expect_go]. rewrite D.
+    destruct (IH true i ts Cl) as [E|E]; [exact E | subst; reflexivity].
+Qed.
+
+(* the statement with an application-specific condition, and its refutation *)
+Definition stream_error_any_children_statement : Prop :=
+  forall parse recv ws i attrs kids ens el rest,
+    expect parse recv ws i (TStart ns_stream (str "error") attrs :: flat_map flatten kids ++ TEnd ens el :: rest)
+    = (EStream (cond_of kids []), i, []).
+
+Lemma stream_error_application_condition_refuted : ~ stream_error_any_children_statement.
+Proof.
+  intro H.
+  specialize (H (fun _ => None) false false info_zero []
+                [NElem ns_stream_error (str "conflict") [] []; NElem (str "urn:example:app") (str "too-many") [] []]
+                ns_stream (str "error") []).
+  vm_compute in H. discriminate H.
+Qed.
+
+(* a header that changes an established address is refused *)
+Lemma changed_address_rejected_recv parse s2s ws lang rid i ts res i' w :
+  neg_round parse true s2s ws lang rid i ts = (res, i', w) ->
+  (i_to i <> jid_zero /\ i_to i' <> i_to i) \/
+  (i_from i <> jid_zero /\ i_from i' <> i_from i) \/
+  (s2s = true /\ i_from i' <> i_from i) ->
+  res <> NOk.
+Proof.
+  intros H C E. subst res. destruct (round_recv _ _ _ _ _ _ _ _ _ H) as (T & F & _).
+  destruct C as [[N D]|[[N D]|[S D]]].
+  - destruct T as [T|T]; contradiction.
+  - destruct F as [[_ F]|F]; contradiction.
+  - destruct F as [[F _]|F]; [congruence | contradiction].
+Qed.
+
+Lemma changed_address_rejected_init parse s2s ws lang rid i ts res i' w :
+  (forall v j, parse v = Some j -> j <> jid_zero) ->
+  neg_round parse false s2s ws lang rid i ts = (res, i', w) ->
+  i_to i' <> i_to i \/ i_from i' <> i_from i ->
+  res <> NOk.
+Proof.
+  intros Pz H C E. subst res. destruct (round_init _ Pz _ _ _ _ _ _ _ _ H) as (F & T & _).
+  destruct C; contradiction.
 Qed.
